@@ -150,9 +150,23 @@ def audit_binop_route():
     obs.append({"case": "last-arm-is-the-catch-all-scalar-arm", "ok": True})
     for i, p in enumerate(pats[:-1]):
         obs.append({"case": f"arm-{i}-requires-a-list-operand", "ok": "Value::List(" in p, "detail": p[:200]})
-    # the dot-operator block precedes the `match (lhs, rhs)` dispatch
+    # the dot-operator block precedes the `match (lhs, rhs)` dispatch, and nothing else stands between them
     dot = src.find("// Handle dot operators first - they never broadcast")
     obs.append({"case": "dot-operator-block-precedes-dispatch", "ok": 0 < dot < b0})
+    try:
+        dblk, d0, d1 = slicing.slice_block_after_comment(src, "// Handle dot operators first - they never broadcast", "match op {",
+                                                         "U-BINOP-ROUTE", "expressions.rs", within_fn="evaluate_binary_op_ast")
+        m0 = src.rfind("match (lhs, rhs)", 0, b0 + 1)
+        between = src[d1:m0]
+        import re as _re
+        between = _re.sub(r"//[^\n]*", "", between).strip()
+        obs.append({"case": "no-statement-between-dot-block-and-dispatch", "ok": between == "", "detail": between[:200]})
+        # the tail of the function is the dispatch itself (its value is the function's value)
+        fn = core.find_fn(src, "evaluate_binary_op_ast", "expressions.rs", unit="U-BINOP-ROUTE")
+        tail = _re.sub(r"//[^\n]*", "", src[b1:fn.end - 1]).strip()
+        obs.append({"case": "dispatch-is-the-tail-expression-of-the-function", "ok": tail == "", "detail": tail[:200]})
+    except core.Undecided as e:
+        obs.append({"case": "no-statement-between-dot-block-and-dispatch", "ok": False, "detail": str(e)})
     return obs
 
 
@@ -193,7 +207,7 @@ U_BCAST_LS = KaniUnit(
     modules=[("expressions.rs", "verif_expr_binop.rs"), ("expressions.rs", "verif_expr_bcast.rs")],
     harnesses=gen.bcast_harness_names("ls"),
     functions=[("expressions.rs", "evaluate_binary_op_ast", None)],
-    prepare=prep_bcast, timeout=1500, complete=False, bound="lists of length 0..=2", assumptions=BCAST_ASSUME,
+    prepare=prep_bcast, timeout=3000, tier="thorough", complete=False, bound="lists of length 0..=2", assumptions=BCAST_ASSUME,
     dropped=["T3: the match (lhs, rhs) pattern around the block"])
 
 U_BCAST_LL = KaniUnit(
@@ -202,8 +216,22 @@ U_BCAST_LL = KaniUnit(
     modules=[("expressions.rs", "verif_expr_binop.rs"), ("expressions.rs", "verif_expr_bcast.rs")],
     harnesses=gen.bcast_harness_names("ll"),
     functions=[("expressions.rs", "evaluate_binary_op_ast", None)],
-    prepare=prep_bcast, timeout=1500, complete=False, bound="lists of length 0..=2 (each side)", assumptions=BCAST_ASSUME,
+    prepare=prep_bcast, timeout=3000, tier="thorough", complete=False, bound="lists of length 0..=2 (each side)", assumptions=BCAST_ASSUME,
     dropped=["T3: the match (lhs, rhs) pattern around the block"])
+
+U_HOF = KaniUnit(
+    "U-HOF", "`list via f` and map(list, f), `list where p` and filter(list, p): the same callback sequence (element, plus "
+    "0-based index iff the callee accepts two arguments, in order, self-reference = the function value), results assembled / "
+    "filtered in order, first failing callback fails the form",
+    modules=[("expressions.rs", "verif_hof.rs")],
+    harnesses=["u_hof_via_unary", "u_hof_via_indexed", "u_hof_map_unary", "u_hof_map_indexed",
+               "u_hof_where_unary", "u_hof_where_indexed", "u_hof_filter_unary", "u_hof_filter_indexed"],
+    functions=[("expressions.rs", "evaluate_binary_op_ast", None), ("functions.rs", "call", "BuiltInFunction")],
+    prepare=prep_bcast, timeout=3000, tier="thorough", complete=False, bound="lists of length 0..=2; callee arity classes "
+    "Exact(1) and Between(1,2)", assumptions=BCAST_ASSUME[:4] + [
+        "Kani stub FunctionDef::call -> scripted probe (records arguments / self-reference / depth of each invocation, "
+        "returns a chosen value or failure): the forms are verified against the callback's contract, not its body"],
+    dropped=["T3: as U-BCAST-LS (via / where arms are part of the list-scalar block)"])
 
 U_BINOP_ROUTE = AuditUnit(
     "U-BINOP-ROUTE", "every arm of `match (lhs, rhs)` before the scalar arm requires a list operand; the dot block precedes it",
@@ -241,9 +269,9 @@ U_BIND = KaniUnit(
     "U-BIND", "FunctionDef::call, documented parameter shapes (<= 3 parameters, <= 4 arguments): required/optional/rest "
     "bind positionally; parameters shadow self name, inputs, captured scope and caller; captured scope shadows caller; "
     "nothing leaks into or changes the caller environment; result and failure propagate",
-    modules=[("functions.rs", "verif_call.rs")], harnesses=["u_bind_positional"],
+    modules=[("functions.rs", "verif_call.rs")], harnesses=["u_bind_positional", "u_bind_scope_chain", "u_bind_param_wins"],
     functions=[("functions.rs", "call", "FunctionDef"), ("environment.rs", "get", "Environment")],
-    prepare=prep_values, timeout=1800, complete=False, bound="<= 3 parameters, <= 4 arguments, fixed name pool",
+    prepare=prep_values, timeout=1800, complete=False, bound="<= 2 parameters, <= 3 arguments for positional binding; fixed names for the scope-chain scenarios",
     assumptions=CALL_STUBS)
 
 U_CONVERT = KaniUnit(
@@ -368,6 +396,32 @@ BUILTIN_STUBS = STUB_ASSUMPTIONS[:4] + [
     "Kani stub FunctionDef::call -> assert(false): these built-in arms take no callback",
     "BuiltInFunction::call is entered with a CONSTANT built-in, so only that arm is explored (the function is real, unsliced)"]
 
+def prep_factorial(sc):
+    prep_values(sc)
+    if getattr(sc, "_fact", False):
+        return
+    from . import slicing
+    src = sc.read("expressions.rs")
+    arm, a0, a1 = slicing.slice_block_after(src, "PostfixOp::Factorial => {", "U-GUARD-FACTORIAL", "expressions.rs",
+                                            within_fn="evaluate_ast")
+    text = ("#[cfg(kani)]\n#[allow(unused_variables, unreachable_code, clippy::all)]\n"
+            "pub(crate) fn verif_factorial_arm(val: Value, expr: &SpannedExpr, source: Rc<str>) -> Result<Value, RuntimeError> "
+            + arm + "\n")
+    sc.append_text("expressions.rs", text, "T3 arm slicing",
+                   {"factorial_arm": {"lines": [core.line_of(src, a0), core.line_of(src, a1)], "sha256": core.sha256(arm)},
+                    "dropped": "the operand evaluation `let val = evaluate_ast(expr, ..)?` and the `match op` around the arm"})
+    sc._fact = True
+
+
+U_GUARD_FACTORIAL = KaniUnit(
+    "U-GUARD-FACTORIAL", "factorial arm of evaluate_ast (sliced verbatim): no panic in the guard arithmetic for every f64 "
+    "(incl. 2^64, NaN, infinities); non-integers / negatives fail; above 170 the result is infinity",
+    modules=[("expressions.rs", "verif_factorial.rs")], harnesses=["u_guard_factorial"],
+    functions=[("expressions.rs", "evaluate_ast", None)],
+    prepare=prep_factorial, timeout=900, extra=("--no-unwinding-checks",),
+    assumptions=STUB_ASSUMPTIONS[:3] + ["--no-unwinding-checks: the product loop is cut at 2 iterations (bounded); guard arithmetic complete"],
+    dropped=["T3: operand evaluation and match dispatch around the arm"])
+
 U_UCMP = KaniUnit(
     "U-UCMP", "ugt/ult/ugte/ulte arms of BuiltInFunction::call: equal to the ordering test when Value::compare is Some, false "
     "when it is None; never an error; all scalar pairs incl. booleans, null, built-ins, mixed types",
@@ -378,11 +432,84 @@ U_UCMP = KaniUnit(
 U_GUARD = KaniUnit(
     "U-GUARD", "numeric guards of range / round / abs / floor / ceil / trunc / to_bool through the real BuiltInFunction::call: "
     "no panic (overflow, cast, index) for EVERY f64 argument; range rejects unordered, non-finite and over-long spans",
-    modules=[("functions.rs", "verif_builtins.rs")], harnesses=["u_guard_range", "u_guard_round", "u_guard_unary_math"],
+    modules=[("functions.rs", "verif_builtins.rs")], harnesses=["u_guard_range", "u_guard_round", "u_guard_unary_math", "u_guard_median_varargs"],
     functions=[("functions.rs", "call", "BuiltInFunction")],
     prepare=prep_values, timeout=1500, extra=("--no-unwinding-checks",),
     assumptions=BUILTIN_STUBS + ["--no-unwinding-checks: loops after a guard (range's list construction) are cut at 2 "
                                  "iterations; obligations up to the loop are complete over all f64, loop bodies are bounded"])
+
+def audit_heap_mutation_sites():
+    """Frame audit (C02): a heap cell can only change through Heap::get_mut / HeapPointer::reify_mut. Every call site in
+    the three crates must be one of the two allow-listed sites, and each of those assigns only `lambda_def.name`."""
+    import os
+    import re
+    obs = []
+    allowed = {("blots-core/src/expressions.rs", "evaluate_ast"), ("blots-core/src/expressions.rs", "evaluate_do_block_expr")}
+    files = []
+    for crate in ("blots-core/src", "blots/src", "blots-wasm/src"):
+        d = os.path.join(core.REPO, crate)
+        if os.path.isdir(d):
+            files += [os.path.join(crate, f) for f in sorted(os.listdir(d)) if f.endswith(".rs")]
+    seen = 0
+    for rel in files:
+        if rel.endswith(("tests.rs", "do_block_tests.rs", "wasm_tests.rs")):
+            continue
+        src = open(os.path.join(core.REPO, rel)).read()
+        cut = src.find("#[cfg(test)]")
+        code = src if cut < 0 else src[:cut]
+        for m in re.finditer(r"\.(get_mut|reify_mut)\(", code):
+            if core.find_code(code, m.group(0), m.start(), m.end()) != m.start():
+                continue
+            if rel.endswith("heap.rs"):
+                continue  # the definitions themselves (get_mut / reify_mut forwarders)
+            recv = code[max(0, m.start() - 40):m.start()]
+            if not re.search(r"heap\w*$", recv.strip().split()[-1] if recv.strip() else ""):
+                # receiver is not a heap (e.g. HashMap::get_mut): not a heap mutation site
+                if "heap" not in recv:
+                    continue
+            encl = None
+            for fm in re.finditer(r"^(?:pub(?:\([a-z]+\))?\s+)?fn\s+(\w+)", code[:m.start()], flags=re.M):
+                encl = fm.group(1)
+            seen += 1
+            ok = (rel, encl) in allowed
+            detail = f"line {core.line_of(code, m.start())}"
+            if ok:
+                # the statement that uses the mutable cell must only assign lambda_def.name
+                stmt_end = code.find("}", m.end())
+                blk = code[m.end():code.find("\n        }", m.end()) if code.find("\n        }", m.end()) > 0 else stmt_end]
+                assigns = re.findall(r"(\w+(?:\.\w+)*)\s*=\s*[^=]", blk[:400])
+                bad = [a for a in assigns if a != "lambda_def.name"]
+                ok = not bad
+                detail += f"; assigns {assigns}"
+            obs.append({"case": f"heap-mutation-site:{rel}:{encl}", "ok": ok, "detail": detail})
+    obs.append({"case": "two-allow-listed-heap-mutation-sites-found", "ok": seen >= 2, "detail": f"{seen} sites"})
+    return obs
+
+
+U_FRAME_AUDIT = AuditUnit(
+    "U-FRAME-AUDIT", "every Heap::get_mut / reify_mut call site is one of the two name-setting sites (Assignment arm, "
+    "do-block assignment) and assigns only LambdaDef.name; with U-HEAP (all other Heap methods leave existing cells "
+    "unchanged) no evaluation step can change an existing value", audit_heap_mutation_sites)
+
+U_RANDOM = KaniUnit(
+    "U-RANDOM", "random(seed): two calls with the same (symbolic) seed give bit-identical results in [0, 1), with no heap effect",
+    modules=[("functions.rs", "verif_builtins.rs")], harnesses=["u_random_pure"],
+    functions=[("functions.rs", "call", "BuiltInFunction")],
+    prepare=prep_values, timeout=1500, assumptions=BUILTIN_STUBS + ["fastrand::Rng is verified as compiled (real dependency code); cvc5 back end"])
+
+U_PRINT_CALLS = KaniUnit(
+    "U-PRINT-CALLS", "every printing site (expr_to_source, expr_to_source_with_scope, format_binary_op_multiline on all its "
+    "layout paths, formatter call layouts) queries the decision functions with the operand it prints and the side it is on",
+    modules=[("formatter.rs", "verif_print_calls.rs")],
+    harnesses=["u_print_calls_single_line", "u_print_calls_with_scope", "u_print_calls_multiline", "u_print_calls_operands",
+               "u_print_calls_call_layouts"],
+    functions=[("ast_to_source.rs", "expr_to_source", None), ("ast_to_source.rs", "expr_to_source_with_scope", None),
+               ("formatter.rs", "format_binary_op_multiline", None), ("formatter.rs", "format_call_multiline", None),
+               ("formatter.rs", "format_single_line", None)],
+    prepare=prep_common, timeout=900,
+    assumptions=[STUB_ASSUMPTIONS[0], "Kani stubs (probes) for needs_parens_in_binop / _prefix / _postfix: record the operand "
+                 "pointer and side, return an arbitrary bool; that the returned decision is then turned into '(' ... ')' "
+                 "around that operand's text is read, not proved (format! string assembly)"])
 
 U_PREC = KaniUnit(
     "U-PREC", "operator_info orders the 26 operators as the C10 table; ^ alone is right-associative; table rows "
@@ -446,7 +573,7 @@ PRINTER_ASSUMED = [
     "operand they print (read, not proved: the arms are format! string assembly)",
 ]
 
-prop("C07", [U_PARENS, U_PARENS_OPERAND, U_PREC, U_QUOTE], "other",
+prop("C07", [U_PARENS, U_PARENS_OPERAND, U_PREC, U_QUOTE, U_PRINT_CALLS], "other",
      "Contract-based proof (Kani/CBMC, full finite or fully symbolic domains) that the printer's parenthesisation "
      "decision functions wrap every operand that re-parsing would regroup. Decides the 'same expression trees' part of "
      "C07 for operator/term structure; layout, quoting and number text are assumptions or other units.",
@@ -462,7 +589,7 @@ prop("C10", [U_PREC], "other",
       "that build_pratt_parser registers the table in this order (U-PRATT-REG pending)"],
      ["pest PrattParser semantics"])
 
-prop("C01", [U_ARITY, U_HEAP, U_BIND_SAFE, U_GUARD], "other",
+prop("C01", [U_ARITY, U_HEAP, U_BIND_SAFE, U_GUARD, U_GUARD_FACTORIAL], "other",
      "Absence of panics is Kani's default postcondition (bounds, unwrap/expect, overflow, unreachable). Units: arity "
      "check before indexing, heap typed-pointer invariant (Verus).",
      ["pest parsing of arbitrary UTF-8 and pairs_to_expr unwraps", "ariadne rendering and span-inside-text",
@@ -476,7 +603,7 @@ prop("C12", [U_CMP_SCALAR, U_CMP_TAGS, U_ORDERING, U_UCMP], "other",
       "that each operator arm passes the right expected set (U-BINOP-* units)"],
      STUB_ASSUMPTIONS[:2])
 
-prop("C11", [U_BINOP_SCALAR, U_BINOP_DISPATCH, U_BINOP_ROUTE, U_ORDERING], "other",
+prop("C11", [U_BINOP_SCALAR, U_BINOP_DISPATCH, U_BINOP_ROUTE, U_ORDERING, U_BCAST_LS, U_BCAST_LL], "other",
      "Scalar half of C11: the scalar arm block and the dot-operator arms of evaluate_binary_op_ast are sliced verbatim and "
      "proved against the statement for all operators and all scalar operands (all f64). Broadcasting arms are NOT decided.",
      ["broadcasting arms (list-scalar, scalar-list, list-list): >15 min in CBMC even at length 2; Verus rejects the text",
@@ -522,6 +649,22 @@ prop("C03", [U_ASSIGN, U_DOASSIGN, U_ENV, U_ENV_AUDIT, U_BIND], "other",
      ["induction over statement sequences (each step is proved, the composition is not)", "REPL/CLI drivers",
       "that not/do/return/output cannot be identifiers (grammar)"],
      ASSIGN_STUBS)
+
+prop("C02", [U_HEAP, U_FRAME_AUDIT, U_RANDOM], "other",
+     "Frame conditions only: the heap is append-only (Verus, all heaps), the only two mutation sites set a lambda's name "
+     "(audit), random(seed) is a function of its seed (Kani). Run-to-run determinism and let-abstraction equivalence of "
+     "whole programs are NOT decided.",
+     ["determinism w.r.t. HashMap iteration order / process state", "let-abstraction equivalence (whole-evaluator property)",
+      "purity of every built-in arm (only random is under contract; the others are covered only by the heap frame)"],
+     BUILTIN_STUBS)
+
+prop("C13", [U_BINOP_SCALAR, U_HOF], "other",
+     "Quick tier: the scalar via/into arms apply the function exactly once to the left operand with the function value as "
+     "self-reference (U-BINOP-SCALAR, apply group) - `x into f` is f(x). Thorough tier: via/map and where/filter are proved "
+     "against one callback-sequence specification for lists of length <= 2 (bounded, labelled). reduce / every / some / "
+     "sort_by / group_by and real (non-probe) callbacks are NOT decided.",
+     ["reduce, every, some, sort_by, group_by, count_by", "lists longer than 2", "recursive / closure callbacks (the callback is a probe)"],
+     BCAST_ASSUME[:4])
 
 
 NOT_APPLICABLE = {
